@@ -1388,6 +1388,15 @@ func (r *itArr) reloadCheck(what string) {
 	}
 }
 
+func itSortedKeys(m map[uint64]uint64) []uint64 {
+	ks := make([]uint64, 0, len(m))
+	for k := range m {
+		ks = append(ks, k)
+	}
+	sort.Slice(ks, func(i, j int) bool { return ks[i] < ks[j] })
+	return ks
+}
+
 // mutateChild changes a nested container through the handle the iterator yielded.
 func (e *itEnv) mutateChild(v atree.Value, sh *itVal, inl int) error {
 	rng := e.rng
@@ -1470,7 +1479,7 @@ func (e *itEnv) mutateChild(v atree.Value, sh *itVal, inl int) error {
 			}
 		case 2:
 			keep := 1 + rng.Intn(3)
-			for k := range sh.cmap {
+			for _, k := range itSortedKeys(sh.cmap) { // fixed order: histories must be reproducible
 				if len(sh.cmap) <= keep {
 					break
 				}
@@ -1483,7 +1492,7 @@ func (e *itEnv) mutateChild(v atree.Value, sh *itVal, inl int) error {
 				delete(sh.cmap, k)
 			}
 		default:
-			for k := range sh.cmap {
+			for _, k := range itSortedKeys(sh.cmap) {
 				if k != 0 {
 					if err := set(k, e.childNum()); err != nil {
 						return err
@@ -1684,15 +1693,44 @@ func (r *itArr) run() {
 
 // itBuilder: table-driven digests, or (inner != nil) the default digester with every digest
 // vector recorded so that the canonical order can be computed outside the library.
+//
+// With rec != nil (mode "pooled") the digester handed to the library is the library's own pooled
+// digester, untouched (nothing computed or cached in it beforehand); the digest vector for the
+// canonical order is read from a SECOND pooled digester obtained from an identically seeded default
+// builder, which goes straight back to the library's pool (alternately before / after the
+// library's digester is taken out, so that both pool orders occur).
 type itBuilder struct {
 	table map[uint64][mpeLevels]uint64
 	inner atree.DigesterBuilder
+	rec   atree.DigesterBuilder
+	calls uint64
 }
 
 func (b *itBuilder) SetSeed(k0, k1 uint64) {
 	if b.inner != nil {
 		b.inner.SetSeed(k0, k1)
 	}
+	if b.rec != nil {
+		b.rec.SetSeed(k0, k1)
+	}
+}
+
+func (b *itBuilder) record(hip atree.HashInputProvider, v atree.Value, id uint64) error {
+	dg, err := b.rec.Digest(hip, v)
+	if err != nil {
+		return err
+	}
+	defer atree.VerifPutDigester(dg)
+	var d [mpeLevels]uint64
+	for l := uint(0); l < mpeLevels; l++ {
+		x, err := dg.Digest(l)
+		if err != nil {
+			return err
+		}
+		d[l] = uint64(x)
+	}
+	b.table[id] = d
+	return nil
 }
 
 func (b *itBuilder) Digest(hip atree.HashInputProvider, v atree.Value) (atree.Digester, error) {
@@ -1706,6 +1744,27 @@ func (b *itBuilder) Digest(hip atree.HashInputProvider, v atree.Value) (atree.Di
 			return nil, fmt.Errorf("iter digester: key %d has no digests", id)
 		}
 		return &mpeDigester{d: d}, nil
+	}
+	if b.rec != nil {
+		b.calls++
+		_, known := b.table[id]
+		if !known && b.calls%2 == 0 {
+			if err := b.record(hip, v, id); err != nil {
+				return nil, err
+			}
+			known = true
+		}
+		dg, err := b.inner.Digest(hip, v)
+		if err != nil {
+			return nil, err
+		}
+		if !known {
+			if err := b.record(hip, v, id); err != nil {
+				atree.VerifPutDigester(dg)
+				return nil, err
+			}
+		}
+		return dg, nil
 	}
 	dg, err := b.inner.Digest(hip, v)
 	if err != nil {
@@ -1729,6 +1788,26 @@ type itKey struct {
 	id  uint64
 	val atree.Value
 	ksz uint32
+	grp int // pooled mode: index of the hash-input group (level-0 digest class), -1 = ordinary hash input
+}
+
+// itPooled: state of the mode "pooled" — the library's DEFAULT (pooled) digester with REAL digest
+// collisions forced through the HashInputProvider alone.  CircleHash64 (level 0) multiplies
+// (word ^ pi1) into its state, so a hash input whose first word is pi1 zeroes the state whatever
+// the seed and the second word are: all inputs  pi1 | X | tail  share one level-0 digest per tail
+// (inputs of 9..16 bytes starting with pi1: digest 0); the same holds for a leading 64-byte block
+// pi1 X1 pi2 X2 pi3 X3 pi4 X4.  Levels 1..3 (BLAKE3 of the input) then differ unless two keys have
+// the SAME hash input, which gives collisions on every level and a list at the bottom.
+type itPooled struct {
+	groups  [][]byte       // group g: hash input = prefix(X) | groups[g]  (form by length, see message)
+	forms   []int          // 0: 9..16 bytes, 1: 17..32 bytes, 2: > 64 bytes, 3: > 80 bytes
+	l0      []uint64       // level-0 digest of group g as computed by the library's digester (groups may share it)
+	live    map[uint64]int // live keys per level-0 digest (kept below the collision limit)
+	xpool   []uint64       // X values shared by several keys: identical hash inputs
+	pPlain  int
+	pSame   int
+	scratch bool
+	msg     map[uint64][]byte
 }
 
 type itEntry struct {
@@ -1741,6 +1820,8 @@ type itMap struct {
 	*itEnv
 	m       *atree.OrderedMap
 	b       *itBuilder
+	hip     atree.HashInputProvider
+	pl      *itPooled
 	mode    string
 	alpha   [mpeLevels][]uint64
 	shadow  map[uint64]*itEntry
@@ -1758,7 +1839,14 @@ func (r *itMap) newKey() *itKey {
 	r.keyCtr++
 	bases := []uint64{0, 0, 1 << 24, 1 << 40}
 	id := bases[rng.Intn(len(bases))] + r.keyCtr
-	k := &itKey{id: id}
+	k := &itKey{id: id, grp: -1}
+	if r.pl != nil {
+		// keys of nested maps are small numbers: keep the two key spaces apart, the provider is
+		// also applied to nested maps by VerifyMap
+		id += itPooledKeyBase
+		k.id = id
+		r.pooledAssign(k)
+	}
 	maxKey := int(r.cfg[5])
 	if rng.Chance(55) {
 		v := testutils.Uint64Value(id)
@@ -1828,6 +1916,137 @@ func (r *itMap) setupDigests(target int) {
 	}
 }
 
+const (
+	itPooledKeyBase = uint64(1) << 22
+	itPi1           = uint64(0x13198A2E03707344)
+	itPi2           = uint64(0xA4093822299F31D0)
+	itPi3           = uint64(0x082EFA98EC4E6C89)
+	itPi4           = uint64(0x452821E638D01377)
+	itPooledMaxLive = 200 // per level-0 digest; the collision limit is 255
+)
+
+func (r *itMap) setupPooled(target int) {
+	rng := r.rng
+	r.mode = "pooled"
+	r.b = &itBuilder{table: map[uint64][mpeLevels]uint64{}, inner: atree.NewDefaultDigesterBuilder(), rec: atree.NewDefaultDigesterBuilder()}
+	pl := &itPooled{msg: map[uint64][]byte{}, scratch: rng.Bool()}
+	g := []int{2, 3, 6, 20, 60}[rng.Pick(25, 25, 20, 20, 10)]
+	ng := max(1, target/g)
+	if rng.Chance(15) {
+		ng = 1 + rng.Intn(3)
+	}
+	seen := map[string]bool{}
+	for len(pl.groups) < ng {
+		form := rng.Pick(20, 55, 15, 10)
+		var tail []byte
+		if form > 0 {
+			tail = make([]byte, 1+rng.Intn(16))
+			for i := range tail {
+				tail[i] = byte(rng.Intn(256))
+			}
+			if rng.Chance(50) { // tails that differ in one byte only
+				tail[len(tail)-1] = byte(len(pl.groups))
+			}
+		}
+		key := fmt.Sprint(form, tail)
+		if form == 0 {
+			key = "0" // every input of this form has digest 0: one group
+		}
+		if seen[key] {
+			continue
+		}
+		seen[key] = true
+		pl.groups = append(pl.groups, tail)
+		pl.forms = append(pl.forms, form)
+	}
+	// the level-0 digest of a group does not depend on the seed or on X: ask the library's digester
+	pl.live = map[uint64]int{}
+	probe := atree.NewDefaultDigesterBuilder()
+	probe.SetSeed(1, 1)
+	for g := range pl.groups {
+		var d [2]uint64
+		for j := range d {
+			m := pl.message(g, uint64(j)*0x9e3779b97f4a7c15+1, true)
+			dg, err := probe.Digest(func(atree.Value, []byte) ([]byte, error) { return m, nil }, testutils.Uint64Value(0))
+			must(err)
+			x, err := dg.Digest(0)
+			must(err)
+			d[j] = uint64(x)
+			atree.VerifPutDigester(dg)
+		}
+		if d[0] != d[1] {
+			r.rep.Event("pooled_group_without_forced_collision")
+			d[0] = ^uint64(g) // no common digest: nothing to limit
+		}
+		pl.l0 = append(pl.l0, d[0])
+	}
+	for k := 1 + rng.Intn(4); k > 0; k-- {
+		pl.xpool = append(pl.xpool, uint64(rng.Intn(1<<16)))
+	}
+	pl.pPlain = []int{0, 10, 30, 60}[rng.Intn(4)]
+	pl.pSame = []int{0, 5, 15, 40}[rng.Intn(4)]
+	r.pl = pl
+	r.hip = r.pooledHip
+}
+
+// pooledAssign fixes the hash input of a new key.
+func (r *itMap) pooledAssign(k *itKey) {
+	rng, pl := r.rng, r.pl
+	if rng.Chance(pl.pPlain) {
+		return
+	}
+	g := rng.Intn(len(pl.groups))
+	if rng.Chance(30) { // prefer a few groups: some become large (external)
+		g = rng.Intn(min(len(pl.groups), 3))
+	}
+	if pl.live[pl.l0[g]] >= itPooledMaxLive {
+		return
+	}
+	x := k.id
+	if rng.Chance(pl.pSame) {
+		x = pl.xpool[rng.Intn(len(pl.xpool))]
+	}
+	pl.msg[k.id] = pl.message(g, x, x == k.id)
+	pl.live[pl.l0[g]]++
+	k.grp = g
+}
+
+// message builds the hash input of group g for the free word x.
+func (pl *itPooled) message(g int, x uint64, own bool) []byte {
+	le := func(b []byte, w uint64) []byte {
+		return append(b, byte(w), byte(w>>8), byte(w>>16), byte(w>>24), byte(w>>32), byte(w>>40), byte(w>>48), byte(w>>56))
+	}
+	var m []byte
+	switch pl.forms[g] {
+	case 0: // 9..16 bytes
+		m = le(le(nil, itPi1), x)
+		m = m[:9+int(x%8)]
+		if own {
+			m = m[:16]
+		}
+	case 1:
+		m = le(le(nil, itPi1), x)
+	case 2:
+		m = le(le(le(le(le(le(le(le(nil, itPi1), x), itPi2), x^1), itPi3), x^2), itPi4), x^3)
+	default:
+		m = le(le(le(le(le(le(le(le(nil, itPi1), x), itPi2), x^1), itPi3), x^2), itPi4), x^3)
+		m = le(le(m, itPi1), x^4)
+	}
+	return append(m, pl.groups[g]...)
+}
+
+func (r *itMap) pooledHip(v atree.Value, buf []byte) ([]byte, error) {
+	if id, _, ok := mpeIdent(v); ok {
+		if m, ok := r.pl.msg[id]; ok {
+			if r.pl.scratch && len(m) <= len(buf) {
+				return buf[:copy(buf, m)], nil
+			}
+			return m, nil
+		}
+	}
+	return testutils.GetHashInput(v, buf)
+}
+
 func (r *itMap) vinl(k *itKey) int { return int(atree.VerifMaxInlineMapValueSize(k.ksz)) }
 
 func (r *itMap) addLive(k *itKey) {
@@ -1847,7 +2066,7 @@ func (r *itMap) delLive(k *itKey) {
 func (r *itMap) setNew() {
 	k := r.newKey()
 	v := r.newVal(r.vinl(k), true)
-	old, err := r.m.Set(testutils.CompareValue, testutils.GetHashInput, k.val, v.v)
+	old, err := r.m.Set(testutils.CompareValue, r.hip, k.val, v.v)
 	if err != nil {
 		r.viol("C13: harness: map insert failed", err.Error())
 		return
@@ -1870,7 +2089,7 @@ func (r *itMap) setExisting() {
 	}
 	k := r.live[r.rng.Intn(len(r.live))]
 	v := r.newVal(r.vinl(k), true)
-	old, err := r.m.Set(testutils.CompareValue, testutils.GetHashInput, k.val, v.v)
+	old, err := r.m.Set(testutils.CompareValue, r.hip, k.val, v.v)
 	if err != nil {
 		r.viol("C13: harness: map update failed", err.Error())
 		return
@@ -1887,13 +2106,16 @@ func (r *itMap) removeOne() {
 		return
 	}
 	k := r.live[r.rng.Intn(len(r.live))]
-	_, vs, err := r.m.Remove(testutils.CompareValue, testutils.GetHashInput, k.val)
+	_, vs, err := r.m.Remove(testutils.CompareValue, r.hip, k.val)
 	if err != nil {
 		r.viol("C13: harness: map remove failed", err.Error())
 		return
 	}
 	delete(r.shadow, k.id)
 	r.delLive(k)
+	if k.grp >= 0 {
+		r.pl.live[r.pl.l0[k.grp]]--
+	}
 	r.dispose(vs)
 }
 
@@ -2012,7 +2234,7 @@ func itDrainMap(it atree.MapIterator, mode int, cb func(k, v atree.Value) (bool,
 }
 
 func (r *itMap) flavours() []itMapFlavour {
-	cmp, hip := atree.ValueComparator(testutils.CompareValue), atree.HashInputProvider(testutils.GetHashInput)
+	cmp, hip := atree.ValueComparator(testutils.CompareValue), r.hip
 	mutCb := func(atree.Value) {
 		r.viol("C13: read-only map iteration reported a mutation although nothing was mutated", "")
 	}
@@ -2119,7 +2341,7 @@ func (r *itMap) checkFull() {
 	}
 	for i := 0; i < n; i += step {
 		e := ord[i]
-		v, err := r.m.Get(testutils.CompareValue, testutils.GetHashInput, e.k.val)
+		v, err := r.m.Get(testutils.CompareValue, r.hip, e.k.val)
 		if err != nil {
 			r.viol("C13: Get of an enumerated key failed", fmt.Sprintf("key %d: %v", e.k.id, err))
 			return
@@ -2128,10 +2350,98 @@ func (r *itMap) checkFull() {
 			r.viol("C13: map enumeration disagrees with Get", fmt.Sprintf("key %d: Get=%d enumerated=%d", e.k.id, id, e.v.ident))
 			return
 		}
-		ok, err := r.m.Has(testutils.CompareValue, testutils.GetHashInput, e.k.val)
+		ok, err := r.m.Has(testutils.CompareValue, r.hip, e.k.val)
 		if err != nil || !ok {
 			r.viol("C13: Has of an enumerated key is false", fmt.Sprintf("key %d: %v", e.k.id, err))
 			return
+		}
+	}
+}
+
+// checkMixed (mode "pooled"): one iterator object driven by a random mixture of Next / NextKey /
+// NextValue, with lookups of other keys between the steps (they take digesters out of the
+// library's pool and put them back while the iterator holds its position).
+func (r *itMap) checkMixed() {
+	ord := r.order()
+	n := len(ord)
+	cmp := atree.ValueComparator(testutils.CompareValue)
+	for variant := 0; variant < 3 && !r.failed; variant++ {
+		var it atree.MapIterator
+		var err error
+		name := ""
+		switch variant {
+		case 0:
+			name = "Iterator+mixed Next/NextKey/NextValue"
+			it, err = r.m.Iterator(cmp, r.hip)
+		case 1:
+			name = "Iterator+NextKey with lookups between the steps"
+			it, err = r.m.Iterator(cmp, r.hip)
+		default:
+			name = "ReadOnlyIterator+mixed Next/NextKey/NextValue"
+			it, err = r.m.ReadOnlyIterator()
+		}
+		r.rep.Op("map:" + name)
+		if err != nil {
+			r.viol("C13: map "+name+" failed", err.Error())
+			return
+		}
+		for i := 0; ; i++ {
+			mode := r.rng.Intn(3)
+			if variant == 1 {
+				mode = 1
+			}
+			var k, v atree.Value
+			switch mode {
+			case 0:
+				k, v, err = it.Next()
+			case 1:
+				k, err = it.NextKey()
+			default:
+				v, err = it.NextValue()
+			}
+			if err != nil {
+				r.viol("C13: map "+name+" failed", fmt.Sprintf("after %d of %d entries: %v", i, n, err))
+				return
+			}
+			if (mode != 2 && k == nil) || (mode == 2 && v == nil) {
+				if i != n {
+					r.viol("C13: map "+name+" does not yield every element exactly once in canonical order (digest vector, then insertion)",
+						fmt.Sprintf("ended after %d of %d entries", i, n))
+					return
+				}
+				break
+			}
+			if i >= n {
+				r.viol("C13: map "+name+" does not yield every element exactly once in canonical order (digest vector, then insertion)",
+					fmt.Sprintf("yields more than the %d entries", n))
+				return
+			}
+			if mode != 2 {
+				if id, _, ok := mpeIdent(k); !ok || id != ord[i].k.id {
+					r.viol("C13: map "+name+" does not yield every element exactly once in canonical order (digest vector, then insertion)",
+						fmt.Sprintf("position %d of %d: key %d, expected %d", i, n, id, ord[i].k.id))
+					return
+				}
+			}
+			if mode != 1 {
+				if id, _ := itIdent(v); id != ord[i].v.ident {
+					r.viol("C13: map "+name+" does not yield every element exactly once in canonical order (digest vector, then insertion)",
+						fmt.Sprintf("position %d of %d: value %d, expected %d", i, n, id, ord[i].v.ident))
+					return
+				}
+			}
+			if variant == 1 || r.rng.Chance(25) {
+				e := ord[r.rng.Intn(n)]
+				g, err := r.m.Get(cmp, r.hip, e.k.val)
+				if err != nil {
+					r.viol("C13: Get of an enumerated key failed", fmt.Sprintf("key %d during %s: %v", e.k.id, name, err))
+					return
+				}
+				if id, _ := itIdent(g); id != e.v.ident {
+					r.viol("C13: map enumeration disagrees with Get", fmt.Sprintf("key %d during %s: Get=%d enumerated=%d", e.k.id, name, id, e.v.ident))
+					return
+				}
+			}
 		}
 	}
 }
@@ -2218,6 +2528,9 @@ func (r *itMap) reopen(base *LogBase) (*atree.PersistentSlabStorage, *atree.Orde
 	b2 := &itBuilder{table: r.b.table}
 	if r.b.inner != nil {
 		b2.inner = atree.NewDefaultDigesterBuilder()
+	}
+	if r.b.rec != nil {
+		b2.rec = atree.NewDefaultDigesterBuilder()
 	}
 	m2, err := atree.NewMapWithRootID(st2, r.m.SlabID(), b2)
 	return st2, m2, err
@@ -2467,7 +2780,7 @@ func (r *itMap) afterMutationCheck(what string, m *atree.OrderedMap, verify bool
 		}
 	}
 	if verify {
-		if err := atree.VerifyMap(m, r.addr, itTI(r.ti), testutils.CompareTypeInfo, testutils.GetHashInput, true); err != nil {
+		if err := atree.VerifyMap(m, r.addr, itTI(r.ti), testutils.CompareTypeInfo, r.hip, true); err != nil {
 			r.viol("C13: map is not well formed after "+what, err.Error())
 		}
 	}
@@ -2530,7 +2843,7 @@ func (r *itMap) overwritePass(mode int) {
 			}
 			alloc := r.base.LastIndex(r.addr)
 			rm := r.removesInLog()
-			old, err := r.m.Set(testutils.CompareValue, testutils.GetHashInput, k, nv.v)
+			old, err := r.m.Set(testutils.CompareValue, r.hip, k, nv.v)
 			if err != nil {
 				r.viol("C13: overwriting the current entry during mutable map iteration failed", fmt.Sprintf("position %d key %d: %v", i, id, err))
 				return false, nil
@@ -2552,7 +2865,7 @@ func (r *itMap) overwritePass(mode int) {
 		}
 		return len(got) <= n+8, nil
 	}
-	cmp, hip := atree.ValueComparator(testutils.CompareValue), atree.HashInputProvider(testutils.GetHashInput)
+	cmp, hip := atree.ValueComparator(testutils.CompareValue), r.hip
 	var err error
 	switch variant {
 	case 0:
@@ -2611,7 +2924,7 @@ func (r *itMap) nestedPass() {
 		} else {
 			v = r.childMap(r.vinl(key))
 		}
-		if _, err := r.m.Set(testutils.CompareValue, testutils.GetHashInput, key.val, v.v); err != nil {
+		if _, err := r.m.Set(testutils.CompareValue, r.hip, key.val, v.v); err != nil {
 			r.viol("C13: harness: map insert failed", err.Error())
 			return
 		}
@@ -2647,7 +2960,7 @@ func (r *itMap) nestedPass() {
 		}
 		return pos <= n+8, nil
 	}
-	cmp, hip := atree.ValueComparator(testutils.CompareValue), atree.HashInputProvider(testutils.GetHashInput)
+	cmp, hip := atree.ValueComparator(testutils.CompareValue), r.hip
 	var err error
 	switch r.rng.Intn(3) {
 	case 0:
@@ -2723,6 +3036,9 @@ func (r *itMap) checkpoint() {
 		r.rep.Distinct(fmt.Sprintf("M %s T%d h%d data%d ext%d inl%d n%d", r.mode, r.T, d.height, d.nData, d.nExt, d.nInline, len(r.shadow)))
 	}
 	r.checkFull()
+	if !r.failed && r.pl != nil {
+		r.checkMixed()
+	}
 	if !r.failed {
 		r.checkLoaded(d)
 	}
@@ -2741,7 +3057,11 @@ func (r *itMap) checkpoint() {
 
 func (r *itMap) run() {
 	target := itPickSize(r.rng, 12, 80, 400, 1500)
-	r.setupDigests(target)
+	if r.mode == "pooled" {
+		r.setupPooled(target)
+	} else {
+		r.setupDigests(target)
+	}
 	var err error
 	r.m, err = atree.NewMap(r.rec, r.addr, r.b, itTI(r.ti))
 	must(err)
@@ -2804,12 +3124,26 @@ func cmdIter(a Args) {
 		atree.VerifSetThreshold(1024)
 		atree.VerifSetMaxCollisionLimitPerDigest(255)
 	}()
+	pooled := strings.HasPrefix(a.Mode, "pooled")
+	if pooled {
+		rep.Rule = "mode pooled: every history one OrderedMap using the library's DEFAULT pooled digester (atree.NewDefaultDigesterBuilder, handed to " +
+			"the library untouched; digest vectors for the canonical order read from a second, identically seeded pooled digester) with REAL collisions " +
+			"forced through the HashInputProvider: hash inputs pi1|X|tail (9..16, 17..32, >64, >80 bytes) share the level-0 digest per tail " +
+			"(1..target/2 groups of 2..60 keys, up to 200 live keys per group: inline and external groups), 0/5/15/40% of the keys repeat the whole " +
+			"hash input of other keys (collision on all four levels: nested groups ending in lists), 0/10/30/60% ordinary hash inputs; provider " +
+			"writes into the digester's scratch buffer or returns its own slice; otherwise the phases, checkpoints, flavours and oracles of the " +
+			"default mode (every enumeration flavour vs the dictionary sorted by digest vector then insertion, Get/Has, loaded subsets, PopIterate, " +
+			"in-iteration overwrites and nested mutation) plus iterator objects driven by mixed Next/NextKey/NextValue calls with lookups between steps"
+	}
 	root := NewRng(a.Seed)
 	hists, cps := 0, 0
 	maxHA, maxHM := 0, 0
 	for h := 0; h < a.N; h++ {
 		hr := root.Fork(uint64(h))
 		tag := fmt.Sprintf("h%d", h)
+		if pooled {
+			tag = fmt.Sprintf("p%d", h)
+		}
 		if !want(tag) {
 			continue
 		}
@@ -2827,7 +3161,7 @@ func cmdIter(a Args) {
 					env.viol("C13: panic in implementation", fmt.Sprint(p))
 				}
 			}()
-			if h%2 == 0 {
+			if h%2 == 0 && !pooled {
 				env.what = "array"
 				ti := uint64(40 + hr.Intn(3))
 				arr, err := atree.NewArray(env.rec, env.addr, itTI(ti))
@@ -2840,7 +3174,11 @@ func cmdIter(a Args) {
 				}
 			} else {
 				env.what = "map"
-				r := &itMap{itEnv: env, shadow: map[uint64]*itEntry{}, livePos: map[uint64]int{}, ti: uint64(50 + hr.Intn(3)), kinds: map[string]bool{}}
+				r := &itMap{itEnv: env, shadow: map[uint64]*itEntry{}, livePos: map[uint64]int{}, ti: uint64(50 + hr.Intn(3)), kinds: map[string]bool{},
+					hip: testutils.GetHashInput}
+				if pooled {
+					r.mode = "pooled"
+				}
 				r.run()
 				maxHM = max(maxHM, r.maxH)
 				rep.Event("map_mode_" + r.mode)
